@@ -130,7 +130,7 @@ Definition oneofs_flat_b (e : env) : bool :=
 (* every static hypothesis of the round-trip theorem, decided on an environment of the run
    (soundness of the deciders: proofs/CodecEncDecProofs.v) *)
 Definition env_static_ok (e : env) : bool :=
-  oneofs_flat_b e && oneof_names_ok_b e &&
+  oneofs_flat_b e && oneof_names_ok_b e && env_items_ok_b e &&
   forallb (fun ns => match snd ns with
                      | SObject ps | SOneof ps => props_ok_b e ps
                      | SEnum _ _ => true
